@@ -212,6 +212,10 @@ func searchSequential(run *mc.Run, cov *mc.Coverage) {
 	// ... and with names that differ in case only (incl. the long s, which Unicode folds onto s): they are three
 	// components, and a mark for one is no mark for another
 	searchSequentialOver(run, cov, []string{"sshd", "Sshd", "\u017fshd"}, false)
+	// ... and with a component whose name alone makes the response body longer than 4 KiB and 64 KiB (the sizes at
+	// which buffered writers start to pass data through): status line and body still belong together
+	searchSequentialOver(run, cov, []string{"a", strings.Repeat("n", 5000)}, false)
+	searchSequentialOver(run, cov, []string{"a", strings.Repeat("N", 70000)}, false)
 }
 
 func searchSequentialOver(run *mc.Run, cov *mc.Coverage, names []string, reserved bool) {
